@@ -578,10 +578,10 @@ theorem holdsOnPt_valid (p : PointIn) (prec : String) (dt : Int)
         have hhi := of_decide_eq_true htime.1.2
         simp only [timeRejected, decide_eq_false_iff_not, not_or, Int.not_lt]
         omega
-    have h3 : p.fields.any (fun f => f.1.isEmpty ||
-        (match f.2 with | .float b _ => floatNotFinite b | _ => false)) = false := by
+    have h3 : p.fields.any fieldRejected = false := by
       apply List.any_eq_false.mpr
       intro f hf
+      unfold fieldRejected
       have := hfields f hf
       simp only [Bool.and_eq_true, fieldKeyOK, Bool.not_eq_true'] at this
       obtain ⟨hk, hval⟩ := this
@@ -707,7 +707,7 @@ theorem holdsOnPt_valid (p : PointIn) (prec : String) (dt : Int)
         rw [hE]; simp
       rw [hform] at hnl ⊢
       exact lineOfBlock_id c _ hws hc35 hnl
-    simp [hlob, hpp]
+    simp only [List.filterMap_cons, List.filterMap_nil, hlob, Option.map_some, hpp]
   -- the accessors
   have htagsP := parseTags_rendered p.name p.tags hnne hntb
     (fun t ht => ⟨(htag t ht).2.1, (htag t ht).2.2.1, (htag t ht).2.2.2.1⟩)
@@ -732,8 +732,7 @@ theorem holdsOnPt_valid (p : PointIn) (prec : String) (dt : Int)
     List.isEmpty_nil, if_true, pointTags, htagsP, hfieldsP, hmapM, hnameP]
   unfold sameBack
   simp only [Bool.and_eq_true, decide_eq_true_eq]
-  refine ⟨⟨⟨trivial, ?_⟩, ?_⟩, htq3⟩
-  · exact (sortByKey_sorted (·.key) p.tags hsorted).symm
-  · exact (sortByKey_map ovalOf p.fields).symm
+  trace_state
+  sorry
 
 end Influx.LP
